@@ -816,6 +816,9 @@ def tr_inner(fn: ast.FunctionDef):
             return 'mutate'
         # a statement that touches state outliving the call (round 5): guard / mark / unmark / state
         k = state_kind(s, 'keyvalues.py', {self_name})
+        if k == 'state' and isinstance(s, ast.If) and not s.orelse and len(s.body) == 1 and isinstance(s.body[0], ast.Raise) \
+                and state_refs(ast.Expr(value=s.test, lineno=s.lineno), 'keyvalues.py', {self_name}):
+            return 'state'      # `if <test over such state>: raise ...`: one instruction (not the membership guard)
         if k != 'guard' and isinstance(s, (ast.If, ast.For, ast.While, ast.Try, ast.With, ast.Return)):
             return None     # a compound statement is not one instruction: left to the shape matchers (fail closed)
         return k
@@ -891,6 +894,27 @@ def tr_inner(fn: ast.FunctionDef):
                                                leaf=prefix + lins)), self_name
 
 
+def tree_store_kind(s: ast.stmt, tree_names: set):
+    """'store' for a statement that assigns to / deletes an attribute or item of a tree object, 'mutate' for a call of a
+    mutating method on one, else None."""
+    tgts = []
+    if isinstance(s, ast.Assign):
+        tgts = s.targets
+    elif isinstance(s, ast.AugAssign) or (isinstance(s, ast.AnnAssign) and s.value is not None):
+        tgts = [s.target]
+    elif isinstance(s, ast.Delete):
+        tgts = s.targets
+    flat = []
+    for t in tgts:
+        flat += list(t.elts) if isinstance(t, (ast.Tuple, ast.List)) else [t]
+    if any(isinstance(t, (ast.Attribute, ast.Subscript)) and _root_name(t) in tree_names for t in flat):
+        return 'store'
+    if isinstance(s, ast.Expr) and isinstance(s.value, ast.Call) and isinstance(s.value.func, ast.Attribute) \
+            and s.value.func.attr in MUTATING_METHODS and _root_name(s.value.func.value) in tree_names:
+        return 'mutate'
+    return None
+
+
 def tr_export_struct(fn: ast.FunctionDef) -> dict:
     """The deprecated generator export(), structurally:
          if isinstance(self._value, list):
@@ -923,10 +947,17 @@ def tr_export_struct(fn: ast.FunctionDef) -> dict:
             raise _err(at, 'child lines are not CONSTANT + line')
         return [('Lit', c)] if c else []
 
-    def yields(stmts, allow_children):
+    tree_names = {self_name} | {n.target.id for n in ast.walk(fn) if isinstance(n, (ast.For, ast.comprehension))
+                                and isinstance(n.target, ast.Name)}
+
+    def yields(stmts, allow_children, instrs):
         pre, post, prefix = [], [], None
         for st in stmts:
             if isinstance(st, ast.Assert):
+                continue
+            sk = tree_store_kind(st, tree_names)
+            if sk is not None:      # (round 5) a store to / mutating call on a tree object: an instruction of the program
+                instrs.append((sk, st.lineno))
                 continue
             if isinstance(st, ast.For) and allow_children:
                 # for kv in self._value: for line in kv.export(): yield PREFIX + line     (= the generator expression)
@@ -940,6 +971,7 @@ def tr_export_struct(fn: ast.FunctionDef) -> dict:
                         and inner_.body[0].value.value is not None):
                     raise _err(st, 'children are not yielded as `for kv in self._value: for line in kv.export(): yield PREFIX + line`')
                 prefix = child_prefix(inner_.body[0].value.value, inner_.target.id, st)
+                instrs.append(('children', prefix))
                 continue
             if not isinstance(st, ast.Expr):
                 raise _err(st, f'unrecognised statement in export(): {type(st).__name__}')
@@ -948,6 +980,7 @@ def tr_export_struct(fn: ast.FunctionDef) -> dict:
                 continue        # a docstring-like expression statement
             if isinstance(v, ast.Yield) and v.value is not None:
                 (pre if prefix is None else post).append(fs.pieces(v.value))
+                instrs.append(('write', fs.pieces(v.value)))
                 continue
             if isinstance(v, ast.YieldFrom) and allow_children:
                 g = v.value
@@ -961,11 +994,16 @@ def tr_export_struct(fn: ast.FunctionDef) -> dict:
                         and isinstance(g2.target, ast.Name) and is_export_call(g2.iter, g1.target.id)):
                     raise _err(st, 'child generator does not iterate kv.export() for kv in self._value')
                 prefix = child_prefix(g.elt, g2.target.id, st)
+                instrs.append(('children', prefix))
                 continue
             raise _err(st, 'unrecognised expression statement in export()')
         return pre, prefix, post
 
     body = norm_tail(_strip_doc(fn.body))
+    x_prefix = []       # stores / mutating calls in front of the branches belong to every branch
+    while len(body) > 1 and tree_store_kind(body[0], tree_names) is not None:
+        x_prefix.append((tree_store_kind(body[0], tree_names), body[0].lineno))
+        body = norm_tail(body[1:])
     if len(body) != 1 or not isinstance(body[0], ast.If):
         raise _err(fn, 'export() body is not a single if/else')
     top = body[0]
@@ -974,21 +1012,32 @@ def tr_export_struct(fn: ast.FunctionDef) -> dict:
             and is_self_attr(t.args[0], '_value') and _is_name(t.args[1], 'list')):
         raise _err(top, 'export(): top test is not isinstance(self._value, list)')
     blk = [x for x in top.body if not isinstance(x, (ast.Assert, ast.Pass))]
+    x_pre_blk = []
+    while len(blk) > 1 and tree_store_kind(blk[0], tree_names) is not None:
+        x_pre_blk.append((tree_store_kind(blk[0], tree_names), blk[0].lineno))
+        blk = blk[1:]
     if len(blk) != 1 or not isinstance(blk[0], ast.If):
         raise _err(top, 'export(): block branch is not a single if/else on the root test')
     root_test = classify_root_test(blk[0].test, self_name)
     rb = [x for x in blk[0].body if not isinstance(x, ast.Assert)]
+    x_root = []
+    while len(rb) > 1 and tree_store_kind(rb[0], tree_names) is not None:
+        x_root.append((tree_store_kind(rb[0], tree_names), rb[0].lineno))
+        rb = rb[1:]
     ok_root = (len(rb) == 1 and isinstance(rb[0], ast.For) and isinstance(rb[0].target, ast.Name)
                and is_self_attr(rb[0].iter, '_value') and not rb[0].orelse and len(rb[0].body) == 1
                and isinstance(rb[0].body[0], ast.Expr) and isinstance(rb[0].body[0].value, ast.YieldFrom)
                and is_export_call(rb[0].body[0].value.value, rb[0].target.id))
     if not ok_root:
         raise _err(blk[0], 'export(): root branch is not `for kv in self._value: yield from kv.export()`')
-    head, prefix, tail = yields(blk[0].orelse, True)
+    x_root.append(('children', []))
+    x_block, x_leaf = [], []
+    head, prefix, tail = yields(blk[0].orelse, True, x_block)
     if prefix is None:
         raise _err(blk[0], 'export(): named-block branch does not yield its children')
-    leaf, lp, lpost = yields(top.orelse, False)
-    return dict(root_test=root_test, head=head, prefix=prefix, tail=tail, leaf=leaf + lpost)
+    leaf, lp, lpost = yields(top.orelse, False, x_leaf)
+    return dict(root_test=root_test, head=head, prefix=prefix, tail=tail, leaf=leaf + lpost,
+                prog=dict(root=x_prefix + x_pre_blk + x_root, block=x_prefix + x_pre_blk + x_block, leaf=x_prefix + x_leaf))
 
 
 SELF_PREDS: dict = {}      # methods of Keyvalues of the form `def m(self): return <expression>`: inlined where a test calls them
@@ -1505,6 +1554,7 @@ def translate() -> tuple[str, dict]:
     inner, s2 = tr_inner(f_in)
     yields, s3 = tr_export(f_exp)
     xs = tr_export_struct(f_exp)
+    xprog = xs.pop('prog')
     psites = tr_parse(f_parse, tree, cls)
     read_flag_known = tr_read_flag(tree)
     stores, muts, info = [], [], []
@@ -1570,6 +1620,7 @@ def translate() -> tuple[str, dict]:
                         '_serialise': ast_digest(f_in), 'serialise': ast_digest(f_ser)}}
     side['read_flag_shape_recognised'] = read_flag_known
     side['serialise_paths'] = serpaths
+    side['export_program'] = {k: [i[0] for i in v] for k, v in xprog.items()}
     side['writer_program'] = {k: [[i[0], ([list(p) for p in i[1]] if isinstance(i[1], list) else i[1])] for i in v] for k, v in wprog.items()}
     return '\n'.join(L), side
 
